@@ -325,6 +325,33 @@ def tables_unit(u, res):
     c_tab = np.array(kr.out(0), dtype=int).reshape(4, 24, 4, 3)
     res.add_functions(kr.m.called)
     py_tab = np.array([_get_relative_grid_addresses_from_main_diagonal(i)[0] for i in range(4)])
+    # which of the four tables a lattice gets: the one of the shortest main diagonal of the micro-zone (column vectors).  The compiled
+    # selection (IR of thm_get_relative_grid_address) against the definition, on lattices where rows and columns of the matrix would
+    # choose differently (triclinic, generic orientation) and on symmetric ones
+    rngl = np.random.default_rng(21)
+    lats = [np.eye(3) * 0.2, np.diag([0.1, 0.2, 0.3]), np.array([[0.2, -0.1, 0], [0, 0.2 * np.sqrt(3) / 2, 0], [0, 0, 0.15]])] + \
+        [rngl.uniform(-0.3, 0.3, (3, 3)) + np.eye(3) * 0.25 for _ in range(40)]
+    ndiff = 0; bad = None
+    for Lm in lats:
+        a, b, c = Lm.T
+        d2 = [float(np.dot(v, v)) for v in (a + b + c, -a + b + c, a - b + c, a + b - c)]
+        ar, br_, cr = Lm
+        d2r = [float(np.dot(v, v)) for v in (ar + br_ + cr, -ar + br_ + cr, ar - br_ + cr, ar + br_ - cr)]
+        srt = sorted(d2)
+        if srt[1] - srt[0] < 1e-6 * srt[0]:
+            continue                                    # a tie may be broken either way
+        ndiff += int(np.argmin(d2) != np.argmin(d2r))
+        kr2 = kernels.run(ctx.ir, "tetrahedra_relative_grid_address", [np.zeros((24, 4, 3), dtype="int64"), np.array(Lm, dtype="double", order="C")], mode="concrete")
+        got = np.array(kr2.out(0), dtype=int).reshape(24, 4, 3)
+        want = py_tab[int(np.argmin(d2))]
+        if sorted(tuple(sorted(map(tuple, t))) for t in got) != sorted(tuple(sorted(map(tuple, t))) for t in want):
+            bad = bad or "micro-zone lattice %s: shortest main diagonal is %d but the compiled kernel returns another table" % (np.round(Lm, 3).tolist(), int(np.argmin(d2)))
+    res.queries.append({"name": "compiled tetrahedra_relative_grid_address picks the table of the shortest main diagonal (column vectors), %d lattices of which %d would differ by rows [ground facts]" % (len(lats), ndiff),
+                        "verdict": "unsat" if bad is None else "sat", "seconds": 0.0, "nvars": 0, "nontrivial": False, "hash": "ground"})
+    if bad is not None:
+        res.violations.append({"key": "%s:tables:main_diagonal" % PID, "what": bad, "replay": {}})
+    if ndiff < 3:
+        raise HarnessError("tables: the lattice family does not separate rows from columns")
     for d in range(4):
         # same *set* of tetrahedra (each as a set of vertices), central vertex first in C table
         cs = sorted(tuple(sorted(map(tuple, t))) for t in c_tab[d]); ps = sorted(tuple(sorted(map(tuple, t))) for t in py_tab[d])
